@@ -32,8 +32,8 @@ FILES = {
     "internal/app/api/dto.go": ["C18", "C19"],
     "internal/app/api/common.go": ["C18", "C19"],
     "wasm/main.go": ["C20"],
-    "validate_wasm.go": ["C20"],
-    "derive_rfc4226_wasm.go": ["C20"],
+    "validate_wasm.go": ["C20", "C10"],
+    "derive_rfc4226_wasm.go": ["C20", "C10"],
 }
 ALWAYS = {"lib": [], "rest": [], "wasm": []}   # C10/C12 as well: MSW_ALWAYS=1
 if os.environ.get("MSW_ALWAYS"):
